@@ -400,14 +400,19 @@ def ref_arg(a, val_of):
         if len(o) != n:
             raise ValueError('expected %d got %d' % (n, len(o)))
         return o[i]
-    if k in ('mapseq', 'mapslice', 'mapitem'):
+    if k == 'mapitem':
+        # one element of a mapped sequence: the built-in map would give whole[p]; only the block holding it is needed
+        blocks, bs, ln, p = a[1], a[2], a[3], a[4]
+        q = p + ln if p < 0 else p
+        if not (0 <= q < ln):
+            raise IndexError(p)
+        return val_of(blocks[q // bs])[q % bs]
+    if k in ('mapseq', 'mapslice'):
         whole = []
         for j in a[1]:
             whole.extend(val_of(j))        # a mapped sequence is the list the built-in map would give
         if k == 'mapseq':
             return whole
-        if k == 'mapitem':
-            return whole[a[4]]
         for sl in a[4]:
             whole = whole[slice(*sl)]
         return whole
@@ -436,8 +441,11 @@ def arg_tasks(a, out=None):
         arg_tasks(a[2], out)
     elif k in ('fun', 'custom', 'identity'):
         arg_tasks(a[1], out)
-    elif k in ('mapseq', 'mapslice', 'mapitem'):
+    elif k in ('mapseq', 'mapslice'):
         out.update(a[1])
+    elif k == 'mapitem':
+        q = a[4] + a[3] if a[4] < 0 else a[4]
+        out.add(a[1][q // a[2]])
     return out
 
 
